@@ -41,6 +41,13 @@ TEMPLATES = [
     'a.null @;', 'a.true @;', '({in: 1}).in @;', 'x = a.b.new @;', 'new A @;', 'new A() @;', 'x = {a: 1}.a @;',
     'a.get @;', 'a.set @;', 'x = a[b](c) @;', 'x = (a)(b) @;', 'x = a.b.c @;', 'a.delete @;', 'a.void @;',
     'a.else @;', 'a.do @;', 'a.case @;', 'a.instanceof @;', 'a.var @;', 'a.function @;',
+    # calls on reserved-word property names are calls, not statement headers
+    'a.if(x) @;', 'a.for(x) @;', 'a.while(x) @;', 'a.with(x) @;', 'x = a.b.if(c)(d) @;', 'a.return(x) @;',
+    # groupings after keywords that do not open a header
+    'if (p) r = 0; else (hi + lo) @;', 'do (a) @; while (x);', 'return; (a) @;', 'x = typeof (a) @;',
+    'x = void (a) @;', 'delete (a) @;', 'throw (a) @;', 'new (a) @;', 'case_ = a in (b) @;',
+    # prefix ++/-- with layout before the slash
+    '++ @;', '-- @;', 'x = ++ @;', 'x = - -- @;',
 ]
 LAYOUTS = ['', ' ', '\t', u'\xa0', '\n', '/*c*/', '//c\n', '/*\n*/', ' /*c*/ ', '\r\n', u'\u2028']
 CONTINUATIONS = ['/ 2 / 1', '/re/.test(x)', '/re/g', '/=/.x', '/= 2', '/[/]/.x / 2']
